@@ -23,6 +23,8 @@ func main() {
 		runConc(os.Args[2:])
 	case "concchild":
 		runConcChild(os.Args[2:])
+	case "mgr":
+		runMgr(os.Args[2:])
 	case "ogm":
 		runOGM(os.Args[2:])
 	case "ogmstress":
